@@ -116,6 +116,28 @@ def tail_shapes():
     return out
 
 
+def dollar_programs():
+    """$n outside packet processing (it is null there): as a statement, an initialiser, an operand, in loops and functions"""
+    from ..past import dollar
+    uses = {
+        "stmt": lambda k: [expr(dollar(k))],
+        "let": lambda k: [let("d", dollar(k))],
+        "operand": lambda k: [expr(bin_("==", dollar(k), lit({"k": "null"})))],
+        "argument": lambda k: [expr(call("id1", dollar(k)))],
+        "array-element": lambda k: [expr(arr(I(1), dollar(k), I(2)))],
+    }
+    out = []
+    pre = [OBS_DECL, fndef("id1", ["a"], [expr(ident("a"))])]
+    for un_, mk in uses.items():
+        for k in (0, 1, 3):
+            inc = expr(asg(ident("c"), bin_("+", ident("c"), I(1))))
+            body = [inc] + mk(k) + [obs(ident("c"))]
+            out.append(("dollar use=%s n=%d at=top" % (un_, k), pre + [let("c", I(0)), while_(bin_("<", ident("c"), I(4)), body), obs(I(77))]))
+            out.append(("dollar use=%s n=%d at=function" % (un_, k),
+                        pre + [fndef("run", [], [let("c", I(0)), while_(bin_("<", ident("c"), I(4)), body), expr(I(9))]), obs(call("run"))]))
+    return out
+
+
 def long_runs(n):
     """loop bodies executed n times (sparse tracing)"""
     out = []
@@ -161,6 +183,7 @@ def run(rep, tier, seed):
     if tier == "quick":
         tails = [t for k, t in enumerate(tails) if "at=top" in t["tag"] or k % 4 == 1]
     ctrl = ctrl + tails
+    ctrl += [{"id": "d" + tag, "prog": vmtrace.add_markers(prog), "tag": tag} for tag, prog in dollar_programs()]
     recs = vmtrace.record(items + ctrl, widths, mode=1)
     longs = [{"id": "L" + tag, "prog": vmtrace.add_markers(prog), "tag": tag}
              for tag, prog in long_runs(10000 if tier == "thorough" else 2000)]
@@ -237,6 +260,28 @@ def end_to_end(rep, tier):
         rep.cov["evaluations"] += 1
         if r["how"] != "exit" or b"overflow" in r["err"].lower():
             rep.disagree("e2e stack-overflow %s" % tag, {"stderr": r["err"].decode("utf8", "replace")[:300], "how": r["how"]})
+    # filter mode: the operand stack must not grow with the number of packets either
+    from .. import pcapfmt
+    npk = 3000 if tier == "quick" else 12000
+    cap = pcapfmt.pcap_file([pcapfmt.simple_tcp_frame(b"x" * (i % 3)) for i in range(npk)])
+    filters = {
+        "locals-in-action": "@ true { let a = NP; let b = a + 1; cnt = cnt + b - a; }",
+        "nested-locals": "@ true { let a = 1; { let b = 2; { let c = 3; cnt = cnt + c - b; } } }",
+        "pattern-only": "@ NP < 0\n@ true { cnt = cnt + 1; }",
+        "pattern-calls-function": "fn f(x) { let y = x + 1; y > 0 }\n@ f(NP) { cnt = cnt + 1; }",
+        "expression-statements": "@ true { 1 + 2; [NP, 2]; cnt = cnt + 1; NP; }",
+        "if-in-action": "@ true { let r = if NP % 2 == 0 { 1 } else { let q = 2; q - 1 }; cnt = cnt + r; }",
+        "loop-in-action": "@ true { let i = 0; while i < 3 { let t = i; i = t + 1; } cnt = cnt + 1; }",
+        "dollar-in-action": "@ true { $1; let t = $2; cnt = cnt + 1; }",
+        "several-filters": "@ true { let a = 1; }\n@ true { let b = 2; let c = 3; }\n@ true { cnt = cnt + 1; }",
+    }
+    fjobs = [(["-s", "-c", "let cnt = 0;\n%s\n@ end { eprintln(\"END {} {}\", NP, cnt); }\n" % src], cap) for src in filters.values()]
+    for tag, r in zip(filters, e2e.run_many(fjobs)):
+        rep.cov["evaluations"] += 1
+        want = ("END %d %d" % (npk, npk)).encode()
+        if r["how"] != "exit" or b"overflow" in r["err"].lower() or want not in r["err"]:
+            rep.disagree("e2e filter-mode stack growth %s" % tag, {"stderr": r["err"].decode("utf8", "replace")[-300:], "how": r["how"],
+                                                                  "packets": npk})
 
 
 def replay(rep, path):
